@@ -398,6 +398,12 @@ def lookup_unit(p, item, tier, seed):
             dcs = rnd.sample(pos, rnd.randint(1, 4))
             if it_ % 3 == 1 and m >= 3:
                 dcs = [(2, j) for j in rnd.sample(range(1 << n), rnd.randint(1, min(4, 1 << n)))]
+            if it_ % 4 == 3 and m >= 2:
+                # the first entry decides whether an output is stored negated: leave it open in several outputs at once,
+                # under a measure that counts the NOT gates a denormalisation adds
+                dcs = [(i, 0) for i in range(m)] + ([(rnd.randrange(m), rnd.randrange(1, 1 << n))] if rnd.random() < 0.3 else [])
+                excl_names = rnd.choice([("INPUT",), ("INPUT",), ("INPUT", "IFF")])
+                excl = tuple(getattr(G, t) for t in excl_names)
             for i, j in dcs:
                 model[i][j] = DontCare
             p.case(("dc", name, repr(table), repr(dcs), excl_names), sample=f"{name} don't-care look-up {m}x{1 << n} with {len(dcs)} don't-cares" if len(p.samples) < 6 else None)
